@@ -34,6 +34,8 @@ equation
 end ParamVec;""",
     "AliasDelay": """model AliasDelay
   parameter Real p = 1.5;
+  constant Real g = 9.81;
+  parameter Real q = 0.5;
   parameter String name = "abc";
   Real x(start = 1.0, min = -p);
   Real a(max = 3 * p);
@@ -43,8 +45,8 @@ end ParamVec;""",
 equation
   der(x) = -x + u;
   a = -x;
-  d = delay(x, p);
-  z = a + d;
+  d = delay(x, p + q);
+  z = a + d + g;
 end AliasDelay;""",
 }
 OPTION_SETS = [{}, {"detect_aliases": True}, {"replace_constant_values": True, "expand_vectors": False}]
@@ -99,6 +101,14 @@ def fingerprint(m, rng):
     out["delay_states"] = list(m.delay_states)
     out["aliases"] = sorted((c, sorted(a)) for c, a in m.alias_relation)
     out["string_parameters"] = [repr(v) for v in m.string_parameters]
+    if m.delay_states:
+        syms = [m.time] + [v.symbol for cat in ("states", "der_states", "alg_states", "inputs", "constants", "parameters") for v in getattr(m, cat)]
+        vals = [rng.uniform(0.5, 2.0, size=s.shape) for s in syms]
+        das = []
+        for da in m.delay_arguments:
+            f = ca.Function("d", syms, [ca.MX(da.expr), ca.MX(da.duration)], {"allow_free": True})
+            das.append("free" if f.has_free() else [np.array(o).round(7).tolist() for o in f(*vals)])
+        out["delay_arguments"] = das
     for fname in ("dae_residual_function", "initial_residual_function", "variable_metadata_function"):
         f = getattr(m, fname)
         args = [rng.uniform(0.5, 2.0, size=(f.size1_in(i), f.size2_in(i))) for i in range(f.n_in())]
